@@ -430,7 +430,51 @@ def cw5(P, C):
                  "view %s must be built from (%s); found: %s" % (local, ", ".join(parts), " | ".join(texts)[:200]))
 
 
+def cw6(P, C):
+    """CW-6: a wrapper that selects an operation by an enumerated selector argument rejects the values it does not handle."""
+    C.rule("CW-6", "a wrapper that dispatches on an enumerated selector (the value type of splinetable_read_key / splinetable_write_key) "
+           "returns non-zero for a selector it has no case for: the switch has a default that returns a non-zero constant (or the if-chain "
+           "ends in an else that does) — the sibling wrappers must agree on this (an unhandled type is a failed operation, not a success)", floor=2)
+    n = 0
+    for f in wrappers(P):
+        enum_params = {p["id"] for p in f.params if "splinetable_dtype" in p.get("type", "") or p.get("ctype", "").startswith("enum ")}
+        if not enum_params:
+            continue
+
+        def on_selector(c):
+            c = f.strip(c)
+            return f.k(c) == "DeclRefExpr" and f.nodes[c]["decl"].get("kind") == "ParmVar" and f.nodes[c]["decl"].get("id") in enum_params
+
+        def rejects(st):
+            rs = [x for x in f.walk(st) if f.k(x) == "ReturnStmt"]
+            return bool(rs) and all(f.ch(r) and f.nodes[f.strip(f.ch(r)[0])].get("cv") not in (None, 0) for r in rs)
+        sites = []
+        for i in f.walk():
+            if f.k(i) == "SwitchStmt" and on_selector(f.nodes[i]["cond"]):
+                dfl = [x for x in f.walk(f.nodes[i]["body"]) if f.k(x) == "DefaultStmt" and
+                       next((a for a in f.ancestors(x) if f.k(a) == "SwitchStmt"), None) == i]
+                sites.append((i, len(dfl) == 1 and rejects(dfl[0]), "switch without a rejecting default" if not dfl else "default does not return a non-zero constant"))
+            elif f.k(i) == "IfStmt" and f.k(f.parent[i]) != "IfStmt":
+                # head of an if / else-if chain on the selector
+                orr = f.oriented(f.nodes[i]["cond"], on_selector)
+                if not orr or orr[1] != "==":
+                    continue
+                last = i
+                while f.nodes[last].get("else", -1) >= 0 and f.k(f.nodes[last]["else"]) == "IfStmt":
+                    last = f.nodes[last]["else"]
+                e = f.nodes[last].get("else", -1)
+                sites.append((i, e >= 0 and rejects(e), "if-chain on the selector without a rejecting final else"))
+        for i, ok, why in sites:
+            n += 1
+            C.ob("CW-6", f.name, "unhandled-selector", ok, f.loc(i),
+                 "a selector value without a case is rejected with a non-zero return" if ok else
+                 "%s: an unknown value type does nothing and the wrapper returns 0 (success)" % why)
+    if n == 0:
+        raise core.AnalysisBroken("CW-6: no wrapper dispatches on an enumerated selector")
+
+
 def run(P, C):
+    cw6(P, C)
     cw0(P, C)
     cw1(P, C)
     cw2(P, C)
